@@ -460,6 +460,20 @@ class VariableWithCostDict(Variable):
             self.name, self.domain, self._costs, initial_value=self.initial_value
         )
 
+    @classmethod
+    def _from_repr(cls, r):
+        v = super()._from_repr(r)
+        # The keys of the costs dict are domain values, which are often not
+        # strings, but json only has string keys: a repr that went through
+        # json has all its keys restored as strings. Map them back to the
+        # corresponding domain values.
+        domain_values = {str(d): d for d in v.domain.values}
+        v._costs = {
+            k if k in v.domain.values else domain_values.get(k, k): c
+            for k, c in v._costs.items()
+        }
+        return v
+
 
 class VariableWithCostFunc(Variable):
     has_cost = True
